@@ -81,21 +81,24 @@ std::string run_td(const Args& a) {
 	}
 	// print(): re-emitting the stored terms/atoms through the program interface reproduces them
 	Recorder rec;
-	bool printOk = true;
+	bool printOk = true; std::string printed;
 	for (Id_t i = 0; i != W; ++i) {
 		if (!d.hasTerm(i)) continue;
 		rec.log.clear(); print(rec, i, d.getTerm(i));
 		const TheoryTerm& t = d.getTerm(i);
 		std::string want = t.type() == Theory_t::Number ? "TN," + str(i) + "," + str(t.number()) : t.type() == Theory_t::Symbol ? "TS," + str(i) + "," + hex(std::string(t.symbol())) : "TC," + str(i) + "," + str(t.compound()) + "," + ids(t.terms());
 		printOk = printOk && rec.log.size() == 1 && rec.log[0] == want;
+		for (std::size_t j = 0; j < rec.log.size(); ++j) { if (!printed.empty()) printed += ";"; printed += rec.log[j]; }
 	}
 	for (TheoryData::atom_iterator it = d.begin(); it != d.end(); ++it) {
 		rec.log.clear(); print(rec, **it);
 		const TheoryAtom& x = **it;
 		std::string want = (x.guard() ? "TG," : "TA,") + str(x.atom()) + "," + str(x.term()) + "," + ids(x.elements()) + (x.guard() ? "," + str(*x.guard()) + "," + str(*x.rhs()) : std::string());
 		printOk = printOk && rec.log.size() == 1 && rec.log[0] == want;
+		for (std::size_t j = 0; j < rec.log.size(); ++j) { if (!printed.empty()) printed += ";"; printed += rec.log[j]; }
 	}
-	out.push_back("V[" + visit(d, TheoryData::visit_all) + "]C[" + visit(d, TheoryData::visit_current) + "]" + (printOk ? "" : "PRINT-MISMATCH"));
+	// the calls print() made (terms by id, then atoms in storage order) are compared with Model/TheoryPrint.lean
+	out.push_back("V[" + visit(d, TheoryData::visit_all) + "]C[" + visit(d, TheoryData::visit_current) + "]P[" + printed + "]" + (printOk ? "" : "PRINT-MISMATCH"));
 	return join(out);
 }
 hv::Reg r1("td", &run_td);
